@@ -14,6 +14,7 @@ import sys
 VERIF = os.path.dirname(os.path.dirname(os.path.abspath(__file__)))
 ENV = dict(os.environ, GOFLAGS="-mod=mod", GOPROXY="off")
 ENV.pop("GOSUMDB", None)
+REPO = os.environ.get("VERIF_REPO", "/repo")   # a lane (scratch copy of /repo) when set; the checks honour the same variable
 NS = ["unshare", "-n", "sh", "-c", 'ip link set lo up && exec "$@"', "sh"]
 
 
@@ -33,7 +34,7 @@ def main():
     patch = os.path.join(src, "patch.diff")
     demo = os.path.join(src, "demo_test.go")
     wt = "/tmp/wt-seed-%d" % os.getpid()
-    sh(["git", "-C", "/repo", "worktree", "add", "-q", "--detach", wt, "HEAD"])
+    sh(["git", "-C", REPO, "worktree", "add", "-q", "--detach", wt, "HEAD"])
     result = {"property": meta.get("property"), "summary": meta.get("summary"), "needs_to_manifest": meta.get("needs_to_manifest"),
               "files_changed": meta.get("files_changed"), "source": src}
     try:
@@ -66,7 +67,7 @@ def main():
             result["demo_with_change"] = "pass" if rc1 == 0 else "FAIL"
             result["demo_cmd"] = " ".join(demo_cmd[len(NS):]) + "   (in a private netns; demo copied to %s)" % copy_to
     finally:
-        sh(["git", "-C", "/repo", "worktree", "remove", "--force", wt])
+        sh(["git", "-C", REPO, "worktree", "remove", "--force", wt])
     confirmed = result.get("applies") and result.get("builds") and result.get("baseline_ok") and \
         result.get("demo_pristine") == "pass" and result.get("demo_with_change") == "FAIL"
     result["confirmed"] = bool(confirmed)
@@ -74,15 +75,15 @@ def main():
     evbak = "/tmp/evidence-bak-%d" % os.getpid()
     shutil.copytree(os.path.join(VERIF, "evidence"), evbak)   # evidence committed must come from the unchanged tree
     if confirmed:
-        rc, out = sh(["git", "-C", "/repo", "apply", "--recount", patch])
+        rc, out = sh(["git", "-C", REPO, "apply", "--recount", patch])
         try:
             for p in props:
                 rc, out = sh([os.path.join(VERIF, "bin", "check"), p, "--tier", "quick"], cwd=VERIF)
                 lines = [l for l in out.strip().splitlines() if not l.startswith("KNOWN-FINDING")]
                 checks[p] = {"exit": rc, "tail": lines[-4:]}
         finally:
-            sh(["git", "-C", "/repo", "checkout", "--", "."])
-            sh(["git", "-C", "/repo", "clean", "-fdq"])
+            sh(["git", "-C", REPO, "checkout", "--", "."])
+            sh(["git", "-C", REPO, "clean", "-fdq"])
     shutil.rmtree(os.path.join(VERIF, "evidence"))
     shutil.move(evbak, os.path.join(VERIF, "evidence"))
     result["checks_quick"] = checks
